@@ -248,6 +248,12 @@ impl Check for C08 {
 
     fn exec(&self, c: &Case, st: &mut Stats) -> Result<ExecOk, Fail> {
         let streaming = matches!(c.rc.driver, Driver::StreamingThenClose);
+        // (temporary end-of-file reports belong to the streaming sub-batch, and that one has closing off: shrunk cases
+        // that mix the two differently are outside the property)
+        if (streaming && c.rc.cfg.eof_end) || (!streaming && !c.rc.script.pauses.is_empty()) {
+            st.inc("out_of_scope");
+            return Ok(ExecOk { nontrivial: false });
+        }
         if !c.rc.cfg.eof_end && !streaming && (!c.rc.script.pauses.is_empty() || !matches!(c.rc.driver, Driver::UntilEnd { .. })) {
             st.inc("out_of_scope");
             return Ok(ExecOk { nontrivial: false });
